@@ -94,14 +94,14 @@ def handle (op : String) (args : List String) (impl : Impl) : Option Ans :=
     let want := clampD (Int.tdiv (sval a) q)
     pure { model := showResDur (Dur.divI64 a q), spec := judgeDur impl want,
            cls := tagD1 [a, Dur.unitMulI64 1 q], branch := "divi:" ++ satTag want }
-  | "addu", [a, u] => do
+  | "addu", [a, u] | "addassign_u", [a, u] => do
     let a ← parseDur? a; let f ← unitFactor u
     pure { model := "ok " ++ showDur (Dur.add a (Dur.unitMulI64 f 1)), spec := judgeDur impl (clampD (sval a + f)),
-           branch := "addu:" ++ u ++ ":" ++ satTag (sval a + f) }
-  | "subu", [a, u] => do
+           branch := op ++ ":" ++ u ++ ":" ++ satTag (sval a + f) }
+  | "subu", [a, u] | "subassign_u", [a, u] => do
     let a ← parseDur? a; let f ← unitFactor u
     pure { model := "ok " ++ showDur (Dur.sub a (Dur.unitMulI64 f 1)), spec := judgeDur impl (clampD (sval a - f)),
-           branch := "subu:" ++ u ++ ":" ++ satTag (sval a - f) }
+           branch := op ++ ":" ++ u ++ ":" ++ satTag (sval a - f) }
   -- ---------------------------------------------------------------- C02
   | "from_total", [n] => do
     let n ← n.toInt?
